@@ -232,29 +232,8 @@ class SendShutdownAll:
         return []
 
 
-@contract('internal_com.rpchandler:RpcHandler.send_state_event', props=[])
-class SendStateEvent:
-    assumed = True
-    raises = ()
-    effect = 'rpc_handler.send_state_event'
-
-    def modifies(self):
-        return []
 
 
-@contract('internal_com.mapper:SupvisorsMapper.filter', props=[])
-class MapperFilter:
-    """read-only: the known Supvisors identifiers designated by the list (identifier, nick identifier or stereotype);
-    every element returned is a key of mapper.instances (C13/C18 verify the mapper)"""
-    assumed = True
-    raises = ()
-    types = {'identifier_list': 'List[str]'}
-
-    def modifies(self):
-        return []
-
-    def post_known(self, result):
-        return forall(int, lambda k: implies(0 <= k and k < len(result), result[k] in self.instances))
 
 
 @contract('process:ProcessStatus.possible_identifiers', props=[])
@@ -268,15 +247,6 @@ class PossibleIdentifiers:
         return []
 
 
-@contract('statemodes:SupvisorsStateModes.publish_status', props=[])
-class PublishStatus:
-    """publication of the local state & modes to the peers and to the external listeners (transport): effect only"""
-    assumed = True
-    raises = ()
-    effect = 'state_modes.publish_status'
-
-    def modifies(self):
-        return []
 
 
 @contract('statemodes:SupvisorsStateModes.select_master', props=[])
